@@ -52,6 +52,7 @@ AIMED_SMALL = [
     "P,X|L1", "P,X|L2", "N2,X|L1", "N2,X|L3", "P,P,X|L1", "P,X|L1|L1", "N2,X|L1|L2", "P,X|c,c,c",
     "P,B,X|P,B|B,L2", "P,B,X|P,B|C1,B,L1", "N0,P,X|L1", "P,X|C2,C1|L1", "X|L1|C2", "P,X,L1|L1",
     "P,X,B,B,P,X|L1,B,B,S,L1|B,Z,B", "P,X,B,B,X|c,B,B,S,L1|B,Z,B", "N2,X|C1,C1,C1|L2",
+    "P,X,B,B,N3,X|L1,B,B,S,L2|B,Z,B", "P,X,B,B,P,P,X|L1,B,B,S,L1|B,Z,B", "N2,X,B,B,P,X|B,B,S,L2|B,Z,B",
 ]
 AIMED_BIG = [
     "N127,P,P,X|L2|L128|L129|L3", "N130,X|L129|L64|L1", "N126,B,X|N5,B|P,B|C64,B,L127|B,L200",
